@@ -95,6 +95,19 @@ fn coq_z(s: &str) -> String {
     }
 }
 fn coq_cps(s: &[u32]) -> String {
+    // printable ASCII: a string literal (Coq's list notation is slow on long lists)
+    if s.len() > 8 && s.iter().all(|c| (32..127).contains(c)) {
+        let mut o = String::from("(T \"");
+        for c in s {
+            if *c == 34 {
+                o.push_str("\"\"");
+            } else {
+                o.push(char::from_u32(*c).unwrap());
+            }
+        }
+        o.push_str("\")");
+        return o;
+    }
     let mut o = String::from("[");
     for (i, c) in s.iter().enumerate() {
         if i > 0 {
@@ -1152,7 +1165,7 @@ fn main() {
     let by_id: BTreeMap<u64, &Value> = obs["seqs"].as_array().unwrap().iter().map(|x| (x["id"].as_u64().unwrap(), x)).collect();
 
     // ---- oracles + shards ----
-    let nshards = 16usize;
+    let nshards = 12usize;
     let mut shard_cases: Vec<Vec<String>> = vec![Vec::new(); nshards];
     let mut lru_shards: Vec<String> = Vec::new();
     let mut readback_cases: Vec<String> = Vec::new();
@@ -1370,7 +1383,7 @@ fn main() {
     }
 
     if args.only.is_none() {
-        let header = "From Coq Require Import List ZArith.\nImport ListNotations.\nOpen Scope Z_scope.\nFrom VibeSQL Require Import Lex.Placeholder Store.Cursor Run.C30Run.\n";
+        let header = "From Coq Require Import List ZArith String.\nImport ListNotations.\nOpen Scope Z_scope.\nOpen Scope string_scope.\nFrom VibeSQL Require Import Lex.Placeholder Store.Cursor Run.C30Run.\n";
         let coq_variant = format!("{{| v_bound_key := {}; v_literal_aware := {}; v_reject := {} |}}", variant.bound_key, variant.literal_aware, variant.reject);
         let mut k = 0usize;
         for cases in shard_cases.iter().filter(|c| !c.is_empty()) {
@@ -1383,13 +1396,13 @@ fn main() {
             write_shard(&args, k, &text);
             k += 1;
         }
-        for chunk in readback_cases.chunks(150) {
+        for chunk in readback_cases.chunks(300) {
             let text = format!("{}Definition cases : list (Z * pyval * option rval) := [\n{}\n].\nEval vm_compute in (c30_readback_mismatches {} cases).\n", header, chunk.join(";\n"), variant.reject);
             write_shard(&args, k, &text);
             k += 1;
             sum.model_cases += chunk.len() as u64;
         }
-        for chunk in spec_cases.chunks(400) {
+        for chunk in spec_cases.chunks(900) {
             let text = format!("{}Definition cases : list (Z * text * list pyval * option text) := [\n{}\n].\nEval vm_compute in (c30_spec_mismatches cases).\n", header, chunk.join(";\n"));
             write_shard(&args, k, &text);
             k += 1;
